@@ -499,6 +499,33 @@ func plants() []*plant {
 		ex("arg-pos-after-star:"+fnm, "log(*[1], \x01"+argForms[fnm]+")", "RArgPosAfterStar")
 		ex("arg-pos-after-kwargs:"+fnm, "log(**{}, \x01"+argForms[fnm]+")", "RArgPosAfterKwargs")
 	}
+	// the state of an argument-list scan must survive what is nested in the arguments before the offending one:
+	// calls with their own named / * / ** arguments, directly, in a lambda, in a comprehension, two levels deep
+	nests := map[string]string{"call": "log()", "call-named": "log(k=9)", "call-star": "log(*[9])", "call-kwargs": "log(**{})",
+		"call-in-call": "log(z=log(k=9, j=8))", "call-in-lambda": "(lambda: log(k=9))", "call-in-comprehension": "[log(k=9) for q6 in [1]]",
+		"call-mixed": "log(7, k=9, *[8], **{})"}
+	nestNames := []string{}
+	for k := range nests {
+		nestNames = append(nestNames, k)
+	}
+	sort.Strings(nestNames)
+	for _, nn := range nestNames {
+		v := nests[nn]
+		ex("arg-repeated-after:"+nn, "log(k=1, j="+v+", \x01k=2)", "RArgRepeatedName")
+		ex("arg-repeated-value:"+nn, "log(k="+v+", \x01k=2)", "RArgRepeatedName")
+		ex("arg-pos-after-named-value:"+nn, "log(k="+v+", \x012)", "RArgPosAfterNamed")
+		ex("arg-pos-after-named-after:"+nn, "log(k=1, j="+v+", \x012)", "RArgPosAfterNamed")
+		ex("arg-pos-after-star-nested:"+nn, "log(*["+v+"], \x012)", "RArgPosAfterStar")
+		ex("arg-pos-after-kwargs-nested:"+nn, "log(**{1: "+v+"}, \x012)", "RArgPosAfterKwargs")
+		ex("arg-named-after-kwargs-nested:"+nn, "log(**{1: "+v+"}, \x01k=2)", "RArgNamedAfterKwargs")
+		ex("arg-named-after-star-nested:"+nn, "log(*["+v+"], \x01k=2)", "RArgNamedAfterStar")
+		ex("arg-multiple-kwargs-nested:"+nn, "log(**{1: "+v+"}, \x01**{})", "RArgMultipleKwargs")
+		ex("arg-multiple-star-nested:"+nn, "log(*["+v+"], \x01*[2])", "RArgMultipleStar")
+		ex("arg-star-after-kwargs-nested:"+nn, "log(**{1: "+v+"}, \x01*[2])", "RArgStarAfterKwargs")
+		// and nothing leaks OUT of the nested call: the same keyword inside and outside is fine
+		ps = append(ps, &plant{Kind: "arg-nested-same-keyword:" + nn, IsExpr: true, Expr: "\x01log(k=" + v + ", j=" + v + ")", Expect: none})
+		ps = append(ps, &plant{Kind: "arg-positional-after-nested-named:" + nn, IsExpr: true, Expr: "\x01log(" + v + ", 2, k=3)", Expect: none})
+	}
 	// 256 positional arguments that are unary expressions
 	ex("arg-256-positional-unary", strings.Replace(strings.Replace(manyArgs(false), "0", "-1", -1), "l-1g", "log", 1), "RArgTooManyPos")
 	ex("arg-named-after-kwargs", "log(**{}, \x01k=2)", "RArgNamedAfterKwargs")
@@ -1021,6 +1048,20 @@ func resolveMain(argv []string) {
 	}
 	pl := plants()
 	cps, css := ctxPlants(), ctxSites()
+	type plantSite struct {
+		p    *plant
+		site int
+	}
+	var pairs []plantSite
+	for _, p := range pl {
+		n := len(p.Where)
+		if p.IsExpr {
+			n = 2
+		}
+		for j := 0; j < n; j++ {
+			pairs = append(pairs, plantSite{p, j})
+		}
+	}
 	dist := map[string]int{}
 	total, problems := 0, 0
 	universe := []string{}
@@ -1036,14 +1077,14 @@ func resolveMain(argv []string) {
 		var pr *program
 		var ctxExpect func(o [6]bool) []rerr
 		if i%8 != 0 { // one in eight programs is left valid
-			// index among the planted programs: every (plant, site) pair is visited in turn,
-			// then every (context-sensitive construct, branch position) pair
-			k := (i - i/8 - 1) % (5*len(pl) + len(cps)*len(css))
-			if k < 5*len(pl) {
-				p = pl[k%len(pl)]
-				round = k / len(pl)
+			// index among the planted programs: every (plant, site) pair is visited in turn (an expression-level
+			// plant in two random expression contexts), then every (context-sensitive construct, branch position) pair
+			k := (i - i/8 - 1) % (len(pairs) + len(cps)*len(css))
+			if k < len(pairs) {
+				p = pairs[k].p
+				round = pairs[k].site
 			} else {
-				k -= 5 * len(pl)
+				k -= len(pairs)
 				pr, ctxExpect = g.ctxProgram(cps[k%len(cps)], css[k/len(cps)])
 			}
 		}
@@ -1223,6 +1264,6 @@ func resolveMain(argv []string) {
 	sr, sp := runShadow(*nvec, func(o *progOut) { hx.Emit(o) })
 	total += sr
 	problems += sp
-	hx.Emit(map[string]any{"kind": "rsummary", "programs": *nprog, "runs": total, "problem_programs": problems, "dist": dist, "vectors": *nvec, "plants": len(pl), "context_pairs": len(cps) * len(css)})
+	hx.Emit(map[string]any{"kind": "rsummary", "programs": *nprog, "runs": total, "problem_programs": problems, "dist": dist, "vectors": *nvec, "plants": len(pl), "plant_site_pairs": len(pairs), "context_pairs": len(cps) * len(css)})
 	hx.Flush()
 }
